@@ -1,10 +1,10 @@
 SPECIFICATION Spec
 CONSTANTS
   NLP = 3
-  MaxLen = 3
+  MaxLen = 5
   NPar = 1
-  DoublePars = {{}, {1}}
-  CompletePars = {{}, {1}}
+  DoublePars = {{}}
+  CompletePars = {{}}
   EmitLen = 0
   RandomOps = FALSE
   EmitRare = {}
